@@ -21,7 +21,8 @@ OptShapes == {"omitted", "empty", "partial"}
 Dirs == {"up", "down", "left", "right"}
 Algs == {"overlap", "simple", "none"}
 Bounds == {"none", "max", "zero"}
-Clusters == {"small", "c150", "c190", "c199", "c200", "c400"}
+\* ("n1000" / "n703": that many labels in all - the claim goes up to 1000 - with a conflict cluster of 100)
+Clusters == {"small", "c150", "c190", "c199", "c200", "c400", "n1000", "n703"}
 Desc == [count : Counts, ttype : TTypes, arr : Arrs, span : Spans, opts : OptShapes, dir : Dirs, alg : Algs,
          bounds : Bounds, ticks : BOOLEAN, cluster : Clusters]
 \* documented inputs: numeric times need a caller-supplied linear scale, i.e. options given
